@@ -404,21 +404,9 @@ _ALSO = re.compile(r"Also found in: (.*?)\.(?= (?:Consider|These) )")
 
 
 def const_msg(message):
-    """Recorded deviation (unchanged tree, independent of grouping): the 'Also found in: a, b' list of a duplicate-constant message
-    names the other locations in the order they were linted.  Only the ORDER inside that list is normalised - which locations and
-    names are listed, the file count and everything else in the message are still compared.  Where the list is cut after 3 locations
-    ("... and N more.") the shown subset follows the same lint order; then the number of other locations is compared."""
-    if not message.startswith(("Duplicate constant", "Similar constants found")):
-        return message
-    return _ALSO.sub(_also_sorted, message)
-
-
-def _also_sorted(m):
-    listed = m.group(1)
-    more = re.search(r"^(.*) and (\d+) more$", listed)
-    if more:  # only the first 3 other locations (in lint order) are shown: which ones is the same deviation - keep how many there are
-        return f"Also found in: {len(more.group(1).split(', ')) + int(more.group(2))} other locations."
-    return "Also found in: " + ", ".join(sorted(listed.split(", "))) + "."
+    """Messages are compared literally.  (The 'Also found in: a, b' list of a duplicate-constant message used to name the other
+    locations in lint order - found by this sub-check and repaired in /repo; see known_findings.json 'fixed: property=C08'.)"""
+    return message
 
 
 def cms(vs, root):
